@@ -48,6 +48,12 @@ class JsonParser(object):
     def __init__(self):
         self.current_scenario_outline = None
 
+    @staticmethod
+    def parse_location(location):
+        """Split a "filename:line" location into filename and line number."""
+        filename, line = location.rsplit(":", 1)
+        return filename, int(line)
+
     def parse_features(self, json_data):
         assert isinstance(json_data, list)
         features = []
@@ -63,7 +69,7 @@ class JsonParser(object):
         tags = json_feature.get("tags", [])
         description = json_feature.get("description", [])
         location = json_feature.get("location", u"")
-        filename, line = location.split(":")
+        filename, line = self.parse_location(location)
         feature = model.Feature(filename, line, keyword, name, tags, description)
 
         json_elements = json_feature.get("elements", [])
@@ -107,7 +113,7 @@ class JsonParser(object):
         location = json_element.get("location", u"")
         json_steps = json_element.get("steps", [])
         steps = self.parse_steps(json_steps)
-        filename, line = location.split(":")
+        filename, line = self.parse_location(location)
         background = model.Background(filename, line, keyword, name, steps)
         return background
 
@@ -128,7 +134,7 @@ class JsonParser(object):
         location = json_element.get("location", u"")
         json_steps = json_element.get("steps", [])
         steps = self.parse_steps(json_steps)
-        filename, line = location.split(":")
+        filename, line = self.parse_location(location)
         scenario = model.Scenario(filename, line, keyword, name, tags, steps)
         scenario.description = description
         return scenario
@@ -156,7 +162,7 @@ class JsonParser(object):
         if json_examples:
             # pylint: disable=redefined-variable-type
             examples = self.parse_examples(json_examples)
-        filename, line = location.split(":")
+        filename, line = self.parse_location(location)
         scenario_outline = model.ScenarioOutline(filename, line, keyword, name,
                                                  tags=tags, steps=steps,
                                                  examples=examples)
@@ -197,7 +203,7 @@ class JsonParser(object):
         json_table = json_element.get("table", None)
         if json_table:
             table = self.parse_table(json_table)
-        filename, line = location.split(":")
+        filename, line = self.parse_location(location)
         step = model.Step(filename, line, keyword, step_type, name)
         step.text = text
         step.table = table
@@ -261,6 +267,6 @@ class JsonParser(object):
         json_table = json_element.get("table", None)
         if json_table:
             table = self.parse_table(json_table)
-        filename, line = location.split(":")
+        filename, line = self.parse_location(location)
         examples = model.Examples(filename, line, keyword, name, table)
         return examples
